@@ -1672,6 +1672,14 @@ func (f *Frame) alloc(x *ssa.Alloc) {
 		return
 	}
 	tr.storeNoInvalidate(f.cur.St, pt, ref, tr.zeroVal(pt))
+	for _, gn := range tr.eng.db.GhostOrder {
+		g := tr.eng.db.Ghosts[gn]
+		if g.ZeroOnAlloc != "" && g.ZeroOnAlloc == typeKey(pt) {
+			srt := ghostSort(g.Sort)
+			cur := tr.stateGet(f.cur.St, "G/"+g.Name, srt)
+			tr.stateSet(f.cur.St, "G/"+g.Name, srt, tr.define("gz", srt, sSto(cur, ref, ghostDefault(g.Sort))))
+		}
+	}
 }
 
 func (tr *Tr) storeNoInvalidate(st *State, t types.Type, ref string, v Val) {
